@@ -338,9 +338,18 @@ func runSeed(c *Check, tier string, root, seed uint64) workerResult {
 				}
 			}
 		}
-		min, mv, execs := shrink(c, start, v, 400, time.Now().Add(20*time.Second))
+		budget := 400
+		if o.Poisoned && os.Getenv("VERIF_LEG") == "race" {
+			// a deadlocked run leaves its goroutines behind; under the race detector anything
+			// executed after it in this process would be compared with what they did
+			budget = 0
+		}
+		min, mv, execs := shrink(c, start, v, budget, time.Now().Add(20*time.Second))
 		res.Shrinks += execs
-		lo := safeExec(c, min, true)
+		lo := o
+		if budget > 0 {
+			lo = safeExec(c, min, true)
+		}
 		rf := ReplayFile{Property: mv.Property, Sig: mv.Sig, Msg: mv.Msg, Seed: seed, RootSeed: root, Tier: tier,
 			Minimised: execs > 0, ShrinkExecs: execs, OrigSize: len(cs), Case: min, Log: lo.Log}
 		name := fmt.Sprintf("%s-%d-%x.json", mv.Property, seed, simrt.HashString(mv.Sig)&0xffff)
